@@ -94,6 +94,11 @@ def index_case(draw, mode):
             cnt = math.prod(shp)
             vals = draw(st.lists(st.integers(-n, n - 1), min_size=cnt, max_size=cnt))
             entries[d] = {'a': np.asarray(vals, dtype=int).reshape(shp).tolist()}
+            # integer dtype of the index array: signed or (when no entry is negative) unsigned
+            pool = ['int32', 'int32', 'int8', 'int16'] + (['int64'] if mode == 'x64' else [])
+            if all(v >= 0 for v in vals):
+                pool += ['uint8', 'uint16', 'uint32']
+            entries[d]['dt'] = draw(st.sampled_from(pool))
             n_arrays += 1
         elif kind == 'mask':
             # a mask of rank 1 or 2 consumes 1 or 2 consecutive dims
@@ -335,6 +340,8 @@ def check(recipe, mode):
             classes.append('ellipsis_then_entries')
         if any('m' in it for it in recipe['idx']):
             classes.append('mask')
+        if any(it.get('dt', 'int32').startswith('uint') for it in recipe['idx'] if 'a' in it):
+            classes.append('unsigned_index_array')
         if sum('a' in it for it in recipe['idx']) >= 2:
             classes.append('multi_array')
         if any('a' in it and np.asarray(it['a']).ndim == 2 for it in recipe['idx']):
